@@ -13,3 +13,4 @@ for s in $SEEDS; do for p in $PROPS; do
   echo "seed=$s $p rc=$rc wall=$(( $(date +%s) - t0 ))s $(echo "$out" | grep -m3 'VIOLATION\|KNOWN-FINDING\|VF-ERROR\|REPLAY-DIVERGED' | tr '\n' ' ')"
   [ $rc -ne 0 ] && echo "$out" | tail -15
 done; done
+exit 0
